@@ -63,17 +63,6 @@ Proof.
     (destruct (gate t (VMap m')) eqn:G; [|discriminate]); intros _; exists m'; auto.
 Qed.
 
-Definition idx_gate_witness : prog :=
-  {| p_funcs := []; p_begin := []; p_main := [];
-     p_end := [[SDefine TInt (B "x") (EInt 3); SAssign (LLocal (B "x")) [EStr (B "a")] (EInt 1);
-                SEmit1 (EMapLit [(EStr (B "r"), ELocal (B "x"))])]] |}.
-
-Lemma indexed_assignment_gate_variants :
-  run_prog documented idx_gate_witness false 50 [] = Fatal
-  /\ run_prog {| v_filter_per_record := true; v_idx_gate := false |} idx_gate_witness false 50 []
-     = Ok [ORec [(B "r", VMap [(B "a", VInt 1)])]].
-Proof. split; vm_compute; reflexivity. Qed.
-
 (* ---- emit @name, "a", "b" on a two-level map = the records of the two-level grouping, in map order *)
 Definition group2 (name a b : bytes) (m : amap) : list amap :=
   flat_map (fun kv => match snd kv with
